@@ -256,6 +256,80 @@ pub fn check_case(c: &Case, rep: &mut Report) {
     }
 }
 
+/// A copy that asks for more bits than a strict source holds must fail, and must not leave the source
+/// able to hand out bits that do not exist: after the failure the source is read one bit at a time
+/// until it errs, and the number of bits obtained that way cannot exceed what was there before the
+/// copy minus what reached the destination.
+pub fn check_overshoot(tag: &str, rcfg: RCfg, image: &[u8], prefix: &[ROp], ww: WWord, over: usize, path: Path, rep: &mut Report) {
+    let e = rcfg.e;
+    let rw = rcfg.kind.word_bits();
+    let len = image.len() * 8;
+    let mut rh = make_reader(rcfg, image);
+    let mut wh = make_writer(WCfg { e, w: ww, be: WBackend::Rec(None) });
+    for op in prefix {
+        let r = match op {
+            ROp::Read(n) => guard(|| rh.r.read_bits(*n).map(|_| ())),
+            ROp::Peek(n) => guard(|| rh.r.peek_bits(*n).map(|_| ())),
+            ROp::Skip(n) => guard(|| rh.r.skip_bits(*n)),
+            _ => Out::Ok(()),
+        };
+        if !r.is_ok() {
+            rep.count("prefix_failed", 1);
+            return;
+        }
+    }
+    let p0 = pos_after(prefix);
+    if p0 > len {
+        return;
+    }
+    let n = (len - p0 + over) as u64;
+    let kvf = || format!("overshoot=1 rcfg={} image={} prefix={} ww={} over={} path={}", rcfg.name(), hex(image), rops_to_string(prefix), ww.name(), over, path.name());
+    let sig = format!("{}|{}|{}|{}|overshoot", e.name(), rcfg.kind.name(), ww.name(), path.name());
+    rep.eval(1);
+    let r = do_copy(path, e, rh.r.as_mut(), wh.w.as_mut(), n);
+    match &r {
+        Out::Ok(()) => {
+            rep.violation(&format!("{}|error-not-reported", sig), || format!("copy of {} bits from bit {} of a strict {}-bit source returned Ok", n, p0, len), kvf);
+            return;
+        }
+        Out::Panic(p) => {
+            rep.violation(&format!("{}|panic[{}]", sig, panic_kind(p)), || format!("copy of {} bits from bit {} of a strict {}-bit source panicked: {}", n, p0, len, p), kvf);
+            return;
+        }
+        Out::Err(_) => {}
+    }
+    // what reached the destination
+    let pending = guard(|| wh.w.flush());
+    let delivered = wh.w.delivered().unwrap_or_default().len() * 8;
+    let dst_bits = match pending {
+        Out::Ok(0) => delivered,
+        Out::Ok(p) => delivered + p - ww.bits(),
+        _ => return,
+    };
+    // what the source still hands out
+    let mut obtained = 0usize;
+    let cap = len + 4 * rw + 200;
+    while obtained <= cap {
+        match guard(|| rh.r.read_bits(1)) {
+            Out::Ok(_) => obtained += 1,
+            Out::Err(_) => break,
+            Out::Panic(p) => {
+                rep.violation(&format!("{}|read-after-failure|panic[{}]", sig, panic_kind(&p)), || format!("read_bits(1) after the failed copy panicked: {}", p), kvf);
+                return;
+            }
+        }
+    }
+    rep.eval(1);
+    rep.case(&(tag.to_string(), e, rcfg.kind, ww, path, over.min(rw + 1), (len - p0) % rw, rcfg.be.name()));
+    if obtained + dst_bits > len - p0 {
+        rep.violation(
+            &format!("{}|fabricated-after-failed-copy", sig),
+            || format!("{} bits were left in a strict source; the failed copy of {} bits delivered {} bits to the destination, yet {} more bits could then be read from the source: {} bits do not exist", len - p0, n, dst_bits, obtained, obtained + dst_bits - (len - p0)),
+            kvf,
+        );
+    }
+}
+
 pub fn src_conts(kind: RKind, rep: &mut Report) -> Vec<Vec<ROp>> {
     let lim = kind.peek_limit();
     let w = kind.word_bits();
@@ -428,6 +502,50 @@ pub fn run(ctx: &Ctx) -> Report {
                 }
             }
         }
+        // copies that end exactly at the end of a strict source (every bit is there: must succeed), and
+        // copies that overshoot it by less / more than a word (must fail without fabricating bits)
+        if ctx.tier != Tier::Tiny || ww == WWord::U64 {
+            for (si, prefix) in states.iter().enumerate() {
+                let p0 = pos_after(prefix);
+                let base = (p0.div_ceil(rw)).max(if kind.buffered() { 2 } else { 1 });
+                for k in [0usize, 1, 2, 5] {
+                    let total = base + k;
+                    if total * rw <= p0 {
+                        continue;
+                    }
+                    let n = (total * rw - p0) as u64;
+                    let img: Vec<u8> = images[(si + k) % 2][..total * rwb].to_vec();
+                    for (pi, path) in Path::ALL.iter().enumerate() {
+                        if ctx.tier != Tier::Thorough && (si + k + pi) % 2 == 1 && pi >= 2 {
+                            continue;
+                        }
+                        let be = RBackend::STRICT[(si + k + pi) % RBackend::STRICT.len()];
+                        let df = dfills[(si + k + pi) % dfills.len()];
+                        let case = Case {
+                            rcfg: RCfg { e, kind, be },
+                            image: img.clone(),
+                            prefix: prefix.clone(),
+                            ww,
+                            dst_pre: dst_prefix(df, ww.bits(), si + k, &mut rng, e),
+                            n0: None,
+                            n,
+                            path: *path,
+                            n2: None,
+                            src_cont: vec![ROp::Pos],
+                            dst_cont: dconts[(si + pi) % dconts.len()].clone(),
+                        };
+                        check_case(&case, rep);
+                        rep.count("copies_ending_exactly_at_the_end_of_a_strict_source", 1);
+                        for over in [1usize, rw / 2, rw - 1, rw, rw + 3] {
+                            if over == 0 || (ctx.tier != Tier::Thorough && (si + over + pi) % 3 != 0) {
+                                continue;
+                            }
+                            check_overshoot("C08", RCfg { e, kind, be }, &img, prefix, ww, over, *path, rep);
+                        }
+                    }
+                }
+            }
+        }
         // other source backends (library ones), sampled
         for _ in 0..ctx.pick(2, 1500, 8000) {
             let be = *rng.pick(&RBackend::ALL);
@@ -458,5 +576,11 @@ pub fn run(ctx: &Ctx) -> Report {
 }
 
 pub fn replay(case: &str, rep: &mut Report) {
+    if case.starts_with("overshoot=") {
+        let kv = Kv::parse(case);
+        let ww = *WWord::ALL.iter().find(|w| w.name() == kv.get("ww")).unwrap();
+        check_overshoot("C08", parse_rcfg(kv.get("rcfg")), &unhex(kv.get("image")), &parse_rops(kv.get("prefix")), ww, kv.usize("over"), Path::parse(kv.get("path")), rep);
+        return;
+    }
     check_case(&Case::from_kv(case), rep);
 }
